@@ -136,6 +136,7 @@ package ipfix
 // ---- sets and messages --------------------------------------------------------------------------
 
 //@ func NewDecoder
+//@   opt borrows b
 //@   ensures result != nil && result.raddr == raddr && rdr(result.reader) && result.reader.base == b && result.reader.count == 0
 
 //@ func (*Decoder).decodeSet
@@ -164,6 +165,7 @@ package ipfix
 //@     decreases len(d.reader.data) + (err == nil ? 1 : 0)
 
 //@ func (*Decoder).Decode
+//@   opt borrows d
 //@   requires rdr(d.reader) && d.reader.count == 0 && len(d.reader.base) <= 65535 && wellFormed(mem)
 //@   ensures (len(old(d.reader.base)) < 16 || be16(old(d.reader.base), 0) != 10) ==> result == nil && err != nil
 //@   ensures result != nil ==> mhdrAt(result.Header, old(d.reader.base), 0)
@@ -226,6 +228,7 @@ package ipfix
 //@ pred jsKey(j ghost.JSON) = (j.Ph == 2 || j.Ph == 3) && jstop(j) == 1 && j.Dp >= 1 && j.Dp <= 2 && jscanon(j)
 
 //@ func (*Message).JSONMarshal
+//@   opt borrows b
 //@   opt json
 //@   requires b != nil && b.js.Ph == 0 && b.js.Dp == 0 && jscanon(b.js) && jssafe(m.AgentID)
 //@   ensures [valid] err == nil ==> b.js.Ph == 8
